@@ -459,8 +459,8 @@ Definition peer_report (lab : string -> Z -> string) (pref : list Z) (r : resolv
   | Some _ => lab (fst t) (snd t)
   | None => o_msg (audit_refused pref r (fst t) (snd t))
   end.
-(* -T with -j (fix bc662a5): a target that could not be audited is reported as {"target": host:port, "error": text};
-   wrapped = the run is a targets-file run with JSON output, wlabels = the "target" fields of those elements *)
+(* -j (fixes bc662a5, 3d5c3d7): a target that could not be audited is reported as {"target": host:port, "error": text};
+   wrapped = the run has JSON output (targets file: elements of the array; single target, fix 3d5c3d7: the document itself), wlabels = the "target" fields of those error documents *)
 Definition chk_peer (lab : string -> Z -> string) (ts : option (list (string * Z))) (pref : list Z) (r : resolver)
                     (done : bool) (reports : list string) (conns : list (Z * string * Z))
                     (wrapped : bool) (wlabels : list string) : bool :=
